@@ -61,7 +61,9 @@ PROP = [("seed", "C07"), ("cycle counter", "C08"), ("get_partner_index", "C07"),
         ("BeeColony", "C09"), ("Firefly", "C09"), ("revolution works on a copy", "C01"), ("emperor's own cost", "C02"), ("CoralReef", "C18"),
         ("FoxOptimization re-init", "C08"), ("SuccessHistory", "C08"), ("WaterCycleOptimization re-init", "C08"), ("_generate_group_population", "C10"),
         ("NaN coordinate", "C05"), ("process mode every pooled", "C11"), ("HyperTuner ranks", "C19"), ("broadcasts `modes`", "C20"),
-        ("export_results", "C20"), ("HenryGas", "C10")]
+        ("export_results", "C20"), ("HenryGas", "C10"), ("EarlyStopping(patience=None)", "C06"), ("InvasiveWeedOptimization no longer", "C06"),
+        ("AquilaOptimization no longer", "C06"), ("roulette_wheel_indexes", "C06"), ("random_selection", "C06"), ("WildebeestHerd", "C06"),
+        ("QleSineCosine", "C06"), ("trend utilities", "C15")]
 for ln in log:
     h, _, msg = ln.partition(" ")
     if not msg.startswith("fix:"):
